@@ -131,18 +131,9 @@ fuzz_target!(|data: &[u8]| {
         return;
     }
     let cfgs = cfg.to_string();
-    // `..` / `>.` operands that are not member accesses are outside the property's quantifier (same rule as `lab total`)
     match lab::expand(&text, &cfgs) {
-        lab::Class::Panic(m) => {
-            if lab::dots_are_members(&text) {
-                finding("panic", &m, cfg, &text)
-            }
-        }
-        lab::Class::BadOutput(m) => {
-            if lab::dots_are_members(&text) {
-                finding("badoutput", &m, cfg, &text)
-            }
-        }
+        lab::Class::Panic(m) => finding("panic", &m, cfg, &text),
+        lab::Class::BadOutput(m) => finding("badoutput", &m, cfg, &text),
         lab::Class::Reject(m) => {
             if m.trim().is_empty() {
                 finding("emptymsg", "rejected with an empty message", cfg, &text)
